@@ -435,6 +435,13 @@ func TestC15(t *testing.T) {
 		if !ok {
 			rt.Skip("no case")
 		}
+		if rapid.IntRange(0, 9).Draw(rt, "hugefloat") == 0 {
+			// a Float literal beyond float64: validation rejects it (then the case is skipped); should a
+			// document with one ever pass, argument resolution must still be total
+			if gen.ApplyDocFaultNamed(rt, g.Typed, g.Schema, "float-not-finite") {
+				g.Case.Query = gen.JoinPlain(gen.QueryLexemes(g.Typed.Doc, gen.Canon))
+			}
+		}
 		c := c15Case{Schema: g.Case.Schema, Query: g.Case.Query, Vars: genC15Vars(rt, g)}
 		r.Begin("triple", func() interface{} { return c })
 		defer r.End()
@@ -463,13 +470,17 @@ scalar Any
 enum E { A B }
 input In { a: Int = 7 b: [String!] c: In e: E = B }
 directive @d(x: Int = 3, y: String) on FIELD
-type Query { f(i: Int = 1, s: String, l: [Int] = [1, 2], o: In = {a: 5}, nn: Int! = 9, any: Any, e: E): Int g(any: Any = 99999999999999999999): Int h(any: Any = 1e999): Int }
+type Query { f(i: Int = 1, s: String, l: [Int] = [1, 2], o: In = {a: 5}, nn: Int! = 9, any: Any, e: E, fl: Float, id: ID, fls: [Float!]): Int g(any: Any = 99999999999999999999): Int h(any: Any = 1e999): Int }
 `
 
 var c15Corpus = []struct {
 	query string
 	vars  map[string]interface{}
 }{
+	// numbers no Go number type holds: validation rejects them in Int / Float / ID positions; should it
+	// ever let one through, resolving the arguments must still return
+	{`{ f(fl: 1e999) }`, nil}, {`{ f(fl: -1.5E+400) }`, nil}, {`{ f(fl: 99999999999999999999) }`, nil}, {`{ f(id: 99999999999999999999) }`, nil}, {`{ f(fls: [1.5, 2e308]) }`, nil},
+	{`{ f(o: {a: 99999999999999999999}) }`, nil}, {`{ f @d(x: 99999999999999999999) }`, nil}, {`{ f(fl: 1.5, id: 7, fls: [1, 2.5]) }`, nil},
 	{`{ f }`, nil}, {`{ f(i: 2, s: "x", l: [], o: {}, e: A) }`, nil}, {`{ f(i: null, s: null, l: null, o: null) }`, nil}, {`{ f(l: 5, o: {b: ["x"], c: {a: null}}) }`, nil},
 	{`query ($i: Int, $s: String = "d", $l: [Int]) { f(i: $i, s: $s, l: $l) }`, nil},
 	{`query ($i: Int, $s: String = "d", $l: [Int]) { f(i: $i, s: $s, l: $l) }`, map[string]interface{}{"i": nil, "s": nil, "l": []interface{}{1, nil}}},
